@@ -37,6 +37,12 @@ class VMap(V):
     vkind: Kind
 
 
+@dataclass(frozen=True)
+class VDictKeys(V):
+    """d.keys(): membership and iteration only"""
+    d: VDict
+
+
 class Iterable_:
     """uniform view of something a for loop / comprehension can run over: length term + element at k"""
     def __init__(self, n, at, facts=()):
@@ -65,8 +71,11 @@ class Expr2Mixin:
                     raise Unsupported("tuple index out of range")
                 return base.items[i]
             raise Unsupported("symbolic tuple index")
-        if isinstance(base, VMap):
-            return self.map_get(st, base, idx)
+        if isinstance(base, VDict):
+            key = self.dict_key(st, base, idx)
+            self.safety(st, base.has(key), f"safety[{self.site(st, 'sub')}]::key_present", 'KeyError')
+            v = base.get(key)
+            return st.new_list(v) if isinstance(v, VList) else v
         if isinstance(base, VRecord):
             if not isinstance(idx, VStr) or base.get(idx.s) is None:
                 raise Unsupported("record (dict with fixed keys) read by something else than one of its constant keys")
@@ -105,6 +114,20 @@ class Expr2Mixin:
         if nonneg:
             return l.at(i)
         return ite_val(i >= 0, l.at(i), l.at(l.n + i))
+
+    def dict_key(self, st, d: VDict, idx):
+        """the subscript as a key of the dict's key kind; only value-compared keys (int, str, tuples of them) are modelled"""
+        from .builtins_ import _value_hashed
+        if not _value_hashed(d.key) or d.key is REAL:
+            raise Unsupported(f"dict keyed by {d.key}")
+        if isinstance(idx, VReal) or (isinstance(idx, VTuple) and any(isinstance(i, VReal) for i in idx.items)):
+            raise Unsupported("float used as a key of a dict with integer keys")
+        key = self.coerce(st, idx, d.key)
+        if key is None:
+            raise Unsupported(f"key of kind {getattr(idx, 'kind', type(idx).__name__)} for a dict keyed by {d.key}")
+        self.assumptions.add('dicts given as arguments are only read (has / get / insertion-ordered key and value tables, keys compared by value)')
+        self.add_background(('dict', str(d.t)), z3.And(*d.axioms()))
+        return key
 
     def _entails(self, st, fact) -> bool:
         s = self._solver(1500)
@@ -215,7 +238,25 @@ class Expr2Mixin:
             if not items:
                 yield s, s.new_list(VList(NONE, (), z3.IntVal(0), z3.IntVal(0)))     # element kind fixed on first append
             else:
+                top = getattr(self, 'top_spec', None)
+                if top is not None and getattr(top, 'rows_as_tuples', False):
+                    try:
+                        self.join_kind([(s.lists[i.lid] if isinstance(i, VListRef) else i).kind for i in items])
+                    except Unsupported:
+                        # a list literal of mixed kinds (a table row): modelled as an immutable fixed-length row; every list operation other than
+                        # reading by constant index then leaves the modelled subset
+                        self.assumptions.add('list literals of mixed kinds (table rows) are fixed-length rows that are not mutated afterwards')
+                        yield s, VTuple(tuple(items))
+                        continue
                 yield s, s.new_list(self.list_of(s, items))
+
+    def ev_Dict(self, node, st):
+        """a dict literal whose keys are string constants: a record (dict with a fixed set of keys, read by constant key); the values keep their identity,
+        so a list stored in it is the same list object when read back"""
+        if not node.keys or any(not (isinstance(k, ast.Constant) and isinstance(k.value, str)) for k in node.keys):
+            raise Unsupported("dict literal with other than constant string keys")
+        for s, items in self.ev_seq(list(node.values), st):
+            yield s, VRecord(tuple((k.value, v) for k, v in zip(node.keys, items)))
 
     def list_of(self, st, items: List[V]) -> VList:
         items = [st.lists[i.lid] if isinstance(i, VListRef) else i for i in items]
@@ -337,6 +378,12 @@ class Expr2Mixin:
         if isinstance(v, (VListRef, VList)):
             l = st.lst(v)
             return Iterable_(l.n, lambda k: l.at(k))
+        if isinstance(v, VDictKeys):
+            v = v.d
+        if isinstance(v, VDict):
+            self.add_background(('dict', str(v.t)), z3.And(*v.axioms()))
+            l = v.keys_list()
+            return Iterable_(l.n, lambda k: l.at(k))
         if isinstance(v, VRange):
             n = z3.If(v.hi > v.lo, v.hi - v.lo, 0)
             return Iterable_(z3.simplify(n), lambda k: VInt(z3.simplify(v.lo + k)))
@@ -448,6 +495,8 @@ class Expr2Mixin:
             return st.lists[v.lid]
         if isinstance(v, VTuple):
             return VTuple(tuple(self.deref(st, i) for i in v.items))
+        if isinstance(v, VRecord):
+            return VRecord(tuple((n, self.deref(st, i)) for n, i in v.items))
         return v
 
     def comprehension2(self, node, st):
@@ -539,6 +588,9 @@ class Expr2Mixin:
             if base.name == 'math' and attr == 'inf':
                 yield st, VFloatInf()
                 return
+            if base.name == 'sys' and attr in ('stdout', 'stderr', 'stdin'):
+                yield st, VObj(z3.Const(f'sys.{attr}', Ref), ('TextIO',))     # one distinguished file object each
+                return
             yield st, VFunc('builtin', (f"{base.name}.{attr}",))
             return
         if isinstance(base, VFunc) and base.tag == 'builtin':
@@ -574,6 +626,11 @@ class Expr2Mixin:
                 f = z3.Function(f'enum_value:{base.cls}', z3.IntSort(), Ref)
                 yield st, VObj(f(base.t), ('str',))
                 return
+        if isinstance(base, VDict):
+            if attr not in ('keys', 'values', 'items', 'get'):
+                raise Unsupported(f"dict method {attr} (dicts are read-only in the modelled subset)")
+            yield st, VFunc('dictmeth', (base, attr))
+            return
         if isinstance(base, VStr):
             if attr == 'join':
                 yield st, VFunc('builtin', ('str.join',))
@@ -581,6 +638,9 @@ class Expr2Mixin:
             raise Unsupported(f"str method {attr}")
         if not isinstance(base, VObj):
             raise Unsupported(f"attribute {attr} of {type(base).__name__}")
+        if base.classes == ('TextIO',) and attr == 'close':
+            yield st, VFunc('builtin', ('TextIO.close',))
+            return
         # group the possible classes by how the attribute resolves
         groups = {}
         have, lack = [], []
